@@ -24,6 +24,8 @@ from vpx.models import rsh, rmake, rninja
 builtin_init()
 N = param('N', 2)
 KIND = param('kind', 0)
+# known finding C15-F16: a single quote in DESTDIR / an install directory breaks '$(DESTDIR)$(dir)/x'
+KF_QUOTE = param('kf_quote', False)
 
 
 def _mkenv(backend):
@@ -125,18 +127,28 @@ def _recipe_argvs(mk, target, extra_vars):
     return None
 
 
-def m_install_make(name: str, pfx: str, dest: str) -> bool:
+WHICH = param('which', 'name')      # which of the three strings is symbolic in this obligation
+
+
+def m_install_make(sym: str) -> bool:
     """Make `install` / `uninstall`: with arbitrary prefix and DESTDIR values the copy tool is
     handed the built file and exactly DESTDIR + dir + '/' + suffix; a DESTDIR given on the make
     command line is honoured; uninstall removes exactly what install created
-    pre: len(name) == N and no_ctl(name) and _name_ok(name)
-    pre: len(pfx) <= param('M', 2) and no_ctl(pfx) and (pfx == '' or _name_ok(pfx))
-    pre: len(dest) <= param('M', 2) and no_ctl(dest) and '/' not in dest and chr(92) not in dest
+    pre: len(sym) == N and no_ctl(sym) and '/' not in sym and chr(92) not in sym
+    pre: WHICH == 'dest' or _name_ok(sym)
+    pre: not (KF_QUOTE and WHICH != 'name' and chr(39) in sym)
     post: _
     """
+    name, pfx, dest = 'x y', 'p q', 'd e'
+    if WHICH == 'name':
+        name = sym
+    elif WHICH == 'pfx':
+        pfx = sym
+    else:
+        dest = sym
     env = ENV
     old = dict(env.install_dirs)
-    pre = _mkpath('/opt/' + pfx, Root.absolute)
+    pre = _mkpath('/opt' + ('/' + pfx if pfx else ''), Root.absolute)
     pre.directory = True
     env.install_dirs = dict(old)
     env.install_dirs[InstallRoot.prefix] = pre
@@ -148,17 +160,151 @@ def m_install_make(name: str, pfx: str, dest: str) -> bool:
         binstall.make_install_rule(build, mk, env)
     finally:
         env.install_dirs = old
-    cmdline = (('DESTDIR', '/stage' + dest),)
+    cmdline = (('DESTDIR', '/stage' + dest), ('srcdir', '/srcdir'))
     inst = _recipe_argvs(mk, 'install', cmdline)
     unin = _recipe_argvs(mk, 'uninstall', cmdline)
     if inst is None or unin is None or len(inst) < 1 or len(unin) != 1:
         return R(False)
-    rootdir = {0: '/opt/' + pfx + '/bin', 1: '/opt/' + pfx + '/lib', 2: '/opt/' + pfx + '/include',
-               3: '/opt/' + pfx + '/share/man', 4: '/opt/' + pfx + '/lib'}[KIND]
-    rootdir = posixpath.normpath(rootdir)
+    base = '/opt' + ('/' + pfx if pfx else '')
+    rootdir = base + {0: '/bin', 1: '/lib', 2: '/include', 3: '/share/man', 4: '/lib'}[KIND]
     want_dst = '/stage' + dest + rootdir + '/' + _expected_rel(KIND, name)
     src = f.path.suffix if f.path.root == Root.builddir else '/srcdir/' + f.path.suffix
     a = inst[0]
     ok = a[-2:] == [src, want_dst] and a[0] == 'doppel' and '-p' in a
     ok = ok and unin[0][:2] == ['rm', '-f'] and unin[0][2:] == [want_dst]
     return R(ok)
+
+
+ENVN = _mkenv('ninja')
+
+
+def _nvars_of(nf):
+    from bfg9000.backends.ninja.syntax import Section, Syntax as NS
+    out = [('srcdir', '/srcdir')]
+    for sec in (Section.path, Section.command):
+        for name, value in nf._variables[sec]:
+            w = nf.writer(StringIO())
+            nf._write_variable(w, name, value, NS.clean if sec == Section.path else NS.shell)
+            text = w.stream.getvalue()
+            head = name.name + ' = '
+            if not text.startswith(head) or not text.endswith('\n'):
+                return None
+            val = rninja.value(text[len(head):-1], out)
+            if val is None:
+                return None
+            out.append((name.name, val))
+    return out
+
+
+def _ninja_cmds(nf, output, extra):
+    vars_ = _nvars_of(nf)
+    if vars_ is None:
+        return None
+    for b in nf._builds:
+        if b.outputs == [output]:
+            for k, v in b.variables.items():
+                if k.name == 'cmd':
+                    w = nf.writer(StringIO())
+                    nf._write_variable(w, k, v, indent=1)
+                    text = w.stream.getvalue()
+                    head = '  cmd = '
+                    if not text.startswith(head) or not text.endswith('\n'):
+                        return None
+                    # a command-line style override is not available in ninja: DESTDIR comes from
+                    # the environment at configure time and is written as a variable
+                    line = rninja.value(text[len(head):-1], list(extra) + vars_)
+                    if line is None:
+                        return None
+                    p = rsh.parse(line)
+                    if p is None:
+                        return None
+                    return [argv for assigns, argv in p]
+    return None
+
+
+def n_install_ninja(sym: str) -> bool:
+    """Ninja `install` / `uninstall`: same mapping through the generic command rule
+    pre: len(sym) == N and no_ctl(sym) and '/' not in sym and chr(92) not in sym
+    pre: WHICH == 'dest' or _name_ok(sym)
+    pre: not (KF_QUOTE and chr(39) in sym)
+    post: _
+    """
+    name, pfx, dest = 'x y', 'p q', 'd e'
+    if WHICH == 'pfx':
+        pfx = sym
+    else:
+        dest = sym
+    env = ENVN
+    old = dict(env.install_dirs)
+    oldv = env.variables.get('DESTDIR')
+    pre = _mkpath('/opt' + ('/' + pfx if pfx else ''), Root.absolute)
+    pre.directory = True
+    env.install_dirs = dict(old)
+    env.install_dirs[InstallRoot.prefix] = pre
+    dict.__setitem__(env.variables, 'DESTDIR', '/stage' + dest)
+    try:
+        build = BuildInputs(env, Path('build.bfg', Root.srcdir))
+        f = _mkfile(KIND, name)
+        build['install'].add(f)
+        nf = NinjaFile('build.bfg', destdir=True)
+        binstall.ninja_install_rule(build, nf, env)
+    finally:
+        env.install_dirs = old
+        if oldv is None:
+            dict.pop(env.variables, 'DESTDIR', None)
+        else:
+            dict.__setitem__(env.variables, 'DESTDIR', oldv)
+    inst = _ninja_cmds(nf, 'install', ())
+    unin = _ninja_cmds(nf, 'uninstall', ())
+    if inst is None or unin is None or len(inst) < 1 or len(unin) != 1:
+        return R(False)
+    base = '/opt' + ('/' + pfx if pfx else '')
+    rootdir = base + {0: '/bin', 1: '/lib', 2: '/include', 3: '/share/man', 4: '/lib'}[KIND]
+    want_dst = '/stage' + dest + rootdir + '/' + _expected_rel(KIND, name)
+    src = f.path.suffix if f.path.root == Root.builddir else '/srcdir/' + f.path.suffix
+    a = inst[0]
+    ok = a[-2:] == [src, want_dst] and a[0] == 'doppel' and '-p' in a
+    ok = ok and unin[0][:2] == ['rm', '-f'] and unin[0][2:] == [want_dst]
+    return R(ok)
+
+
+from typing import List
+
+
+def d_dep_closure(edges: List[bool], explicit: List[bool]) -> bool:
+    """every run-time / link-time dependency of an installed file is installed too (transitively),
+    nothing else is, and each file gets one destination: DAG over 4 binaries (edges from lower to
+    higher index), any subset passed to install()
+    pre: len(edges) == 6 and len(explicit) == 4
+    pre: param('E0', -1) < 0 or (explicit[0] == bool(param('E0', 0) & 1) and explicit[1] == bool(param('E0', 0) & 2))
+    post: _
+    """
+    bins = [ft.Executable(_mkpath('p%d' % i), 'elf', 'c') if i == 0 else
+            ft.SharedLibrary(_mkpath('libq%d.so' % i), 'elf', 'c') for i in range(4)]
+    adj = {i: [] for i in range(4)}
+    k = 0
+    for a in range(4):
+        for b in range(a + 1, 4):
+            if edges[k]:
+                adj[a].append(b)
+                (bins[a].runtime_deps if (a + b) % 2 else bins[a].linktime_deps).append(bins[b])
+            k += 1
+    out = binstall.InstallOutputs(ENV)
+    for i in range(4):
+        if explicit[i]:
+            out.add(bins[i])
+    want = set()
+    stack = [i for i in range(4) if explicit[i]]
+    while stack:
+        x = stack.pop()
+        if x in want:
+            continue
+        want.add(x)
+        stack.extend(adj[x])
+    got = [i for i in range(4) if any(b is bins[i] for b in out.host)]
+    ok = sorted(got) == sorted(want) and len(list(out.host)) == len(want)
+    for i in got:
+        h = out.host[bins[i]]
+        root = InstallRoot.bindir if i == 0 else InstallRoot.libdir
+        ok = ok and h.path.root == root and h.path.suffix == bins[i].path.suffix and h.path.destdir
+    return R(ok and bool(out) == any(explicit))
